@@ -12,7 +12,7 @@
 //! every load) is pointed at a bundle holding one harness-made CA, "os-ca", for the whole run (see `OsStore`), so
 //! "system roots" has a known content and certificates "issued by an OS-trusted CA" exist.
 //!
-//! Seven passes:
+//! Eight passes:
 //!  1. `matrix`  – subject client x subject server, the full product of the dimensions;
 //!  2. `probe`   – a harness-owned rustls client (TLS 1.2 and 1.3, verification off,
 //!     recording whether the server sent a CertificateRequest) against every subject
@@ -32,6 +32,10 @@
 //!     {empty, key only, DER, truncated PEM} means "nobody is trusted" (client: no server is reached; server: start-up /
 //!     reload refused or every client rejected), in particular NOT "whoever the OS store trusts"; controls: with no CA
 //!     file a server certificate under os-ca is accepted (else MACHINERY: the variable does not feed the built-in roots).
+//!  8. `provider-matrix` – crypto provider {default aws-lc-rs, "Chromium-like" (PENGUIN_TLS_CHROMIUM_LIKE)} x key type of the
+//!     server leaf x key type of the client leaf as dimensions of a reduced core matrix, judged by the reference predicate
+//!     of pass 1. A provider is installed once per process: the Chromium-like half is run by a child process of this
+//!     binary and its findings are merged under the key prefix `chromium.`.
 
 use crate::Args;
 use crate::report::Report;
@@ -181,10 +185,15 @@ fn leaf_params(san: &str, cn: &str, eku: ExtendedKeyUsagePurpose, expired: bool)
 }
 
 fn make_ident(dir: &str, file: &str, alg: &str, params: &CertificateParams, issuer: Option<&Ca>) -> Ident {
-    let key = gen_key(alg);
+    make_ident_with_key(dir, file, &gen_key(alg), params, issuer)
+}
+
+/// As `make_ident`, for a key made earlier (the provider-matrix pass makes each leaf key once and certifies it in
+/// several PKIs).
+fn make_ident_with_key(dir: &str, file: &str, key: &KeyPair, params: &CertificateParams, issuer: Option<&Ca>) -> Ident {
     let cert = match issuer {
-        Some(ca) => params.signed_by(&key, &ca.issuer).expect("leaf"),
-        None => params.self_signed(&key).expect("self-signed"),
+        Some(ca) => params.signed_by(key, &ca.issuer).expect("leaf"),
+        None => params.self_signed(key).expect("self-signed"),
     };
     let cert_path = format!("{dir}/{file}.cert.pem");
     let key_path = format!("{dir}/{file}.key.pem");
@@ -2620,6 +2629,520 @@ fn name_domain(algs: &[&str]) -> Vec<NameCase> {
 }
 
 // ---------------------------------------------------------------------------------------
+// Crypto provider x key type of the peer being authenticated ("provider-matrix" pass)
+//
+// The subject has two rustls crypto providers: the default aws-lc-rs one and the "Chromium-like" one
+// (`tls/aws_lc_rs_chromium.rs`, its own cipher-suite / key-exchange / signature-verification tables), chosen process-wide
+// by `tls::init_crypto_provider()` when PENGUIN_TLS_CHROMIUM_LIKE is non-empty. Which algorithm checks the peer's
+// handshake signature depends on (provider table, key type of the peer's leaf certificate), so both are dimensions of the
+// core matrix: a reduced product (server certificate x name x skip-verify x client certificate x client CA) is run for
+// every (server leaf key type, client leaf key type) under each provider and judged by `judge_matrix`, i.e. by the very
+// reference predicate of the core matrix. CAs stay P-256.
+//
+// A provider can be installed once per process. The default-provider half runs in this process (jobs of the pool); the
+// Chromium-like half is run by a CHILD: the vapp binary once more, `C17 --tier T --threads N` without `--out` (the report
+// goes to its standard output, which the parent points at a file), with `PROV_CHILD_ENV` and PENGUIN_TLS_CHROMIUM_LIKE=1
+// in its environment. The child installs the provider the way a user's process does (`tls::init_crypto_provider()`),
+// checks that what got installed IS the Chromium-like one (else: machinery error), runs the sub-matrix and puts
+// everything it found into `extra.provider` of its report; its own violation list stays empty, the parent merges what it
+// found under the key prefix `chromium.`. A child that cannot be started, does not finish, or hands back nothing
+// readable is a MACHINERY error, never a verdict.
+//
+// Key types: only those the UNCHANGED tree accepts under the provider in question. The Chromium-like tables leave
+// out Ed25519 (and P-521) on purpose, so a peer with such a key is outside the matrix there.
+// ---------------------------------------------------------------------------------------
+
+/// set in the child: run the provider-matrix pass (or the cases of `PROV_CASES_ENV`) under the Chromium-like provider
+const PROV_CHILD_ENV: &str = "VERIF_C17_PROVIDER_CHILD";
+/// optional, for the child: `{"cases": [case JSON ...], "runs": N}` instead of the whole sub-matrix (replay)
+const PROV_CASES_ENV: &str = "VERIF_C17_PROVIDER_CASES";
+/// testing aid (parent and child): comma-separated leaf key types of the Chromium-like half instead of `PROV_KEYS_CHROMIUM`
+/// (used to establish, on the unchanged tree, which key types that provider accepts)
+const PROV_KEYS_ENV: &str = "VERIF_C17_PROVIDER_KEYS";
+/// what `tls::init_crypto_provider` looks at
+const CHROMIUM_ENV: &str = "PENGUIN_TLS_CHROMIUM_LIKE";
+
+const PROVIDERS: [&str; 2] = ["default", "chromium"];
+/// leaf key types under the default provider
+const PROV_KEYS_DEFAULT: [&str; 4] = ["p256", "p384", "ed25519", "rsa2048"];
+/// leaf key types under the Chromium-like provider: its `mapping` table has no ED25519 (nor ECDSA_NISTP521_SHA512) entry, so
+/// an Ed25519 peer is refused there by design ("peer is incompatible: no signature schemes in common"), on the unchanged tree
+const PROV_KEYS_CHROMIUM: [&str; 3] = ["p256", "p384", "rsa2048"];
+const PROV_CA_KEY: &str = "p256";
+const PROV_SERVER_KINDS: [&str; 3] = ["trusted-ca", "other-ca", "self-signed"];
+const PROV_CLIENT_KINDS: [&str; 3] = ["none", "client-ca", "other-ca"];
+/// (certificate SAN, requested name): matches, differs
+const PROV_NAMES: [(&str, &str); 2] = [("localhost", "localhost"), ("localhost", "other.test")];
+const PROV_ROOTS: &str = "trusted-ca";
+const PROV_CTOR: &str = "make_tls_identity";
+const PROV_CHILD_LIMIT: Duration = Duration::from_secs(600);
+
+fn prov_keys(provider: &str) -> Vec<String> {
+    match provider {
+        "default" => PROV_KEYS_DEFAULT.iter().map(ToString::to_string).collect(),
+        "chromium" => match std::env::var(PROV_KEYS_ENV) {
+            Ok(t) if !t.trim().is_empty() => t.split(',').map(|s| s.trim().to_string()).filter(|s| !s.is_empty()).collect(),
+            _ => PROV_KEYS_CHROMIUM.iter().map(ToString::to_string).collect(),
+        },
+        other => panic!("unknown crypto provider {other}"),
+    }
+}
+
+/// Which provider is installed in this process, told from what it is made of (not from the environment): only the
+/// Chromium-like one lists the suite number TLS_RSA_WITH_AES_128_CBC_SHA (part of the fingerprint it imitates).
+fn provider_facts() -> (bool, Value) {
+    let p = provider();
+    let chromium = p.cipher_suites.iter().any(|s| s.suite() == rustls::CipherSuite::TLS_RSA_WITH_AES_128_CBC_SHA);
+    let facts = json!({
+        "chromium_like": chromium,
+        "cipher_suites": p.cipher_suites.iter().map(|s| format!("{:?}", s.suite())).collect::<Vec<_>>(),
+        "kx_groups": p.kx_groups.iter().map(|g| format!("{:?}", g.name())).collect::<Vec<_>>(),
+        "verify_schemes": p.signature_verification_algorithms.supported_schemes().iter().map(|s| format!("{s:?}")).collect::<Vec<_>>(),
+        "env": std::env::var(CHROMIUM_ENV).ok(),
+    });
+    (chromium, facts)
+}
+
+#[derive(Clone, Debug, PartialEq, Eq, Hash)]
+struct ProvCase {
+    provider: String,
+    server_key: String,
+    client_key: String,
+    /// the point of the core matrix (alg = server leaf key; roots / constructor fixed)
+    m: MatrixCase,
+}
+
+impl ProvCase {
+    fn to_json(&self) -> Value {
+        let mut v = self.m.to_json();
+        v["kind"] = json!("provider-matrix");
+        v["provider"] = json!(self.provider);
+        v["server_leaf_key"] = json!(self.server_key);
+        v["client_leaf_key"] = json!(self.client_key);
+        v["ca_key"] = json!(PROV_CA_KEY);
+        v
+    }
+    fn from_json(v: &Value) -> Self {
+        let s = |k: &str| v[k].as_str().unwrap_or_else(|| panic!("replay: missing {k}")).to_string();
+        Self { provider: s("provider"), server_key: s("server_leaf_key"), client_key: s("client_leaf_key"), m: MatrixCase::from_json(v) }
+    }
+    fn label(&self) -> String {
+        format!("crypto provider {}, server leaf key {}, client leaf key {}, CA keys {PROV_CA_KEY}", self.provider, self.server_key, self.client_key)
+    }
+}
+
+fn prov_domain(provider: &str, keys: &[String]) -> Vec<ProvCase> {
+    let mut v = Vec::new();
+    for sk in keys {
+        for ck in keys {
+            for server_cert in PROV_SERVER_KINDS {
+                for (san, req) in PROV_NAMES {
+                    for skip in [false, true] {
+                        for client_cert in PROV_CLIENT_KINDS {
+                            for server_client_ca in [false, true] {
+                                v.push(ProvCase {
+                                    provider: provider.into(),
+                                    server_key: sk.clone(),
+                                    client_key: ck.clone(),
+                                    m: MatrixCase {
+                                        alg: sk.clone(),
+                                        server_cert: server_cert.into(),
+                                        san: san.into(),
+                                        req_name: req.into(),
+                                        skip,
+                                        roots: PROV_ROOTS.into(),
+                                        client_cert: client_cert.into(),
+                                        server_client_ca,
+                                        ctor: PROV_CTOR.into(),
+                                    },
+                                });
+                            }
+                        }
+                    }
+                }
+            }
+        }
+    }
+    v
+}
+
+/// The leaf keys of one key type, made ONCE (RSA generation is what costs) and certified in every PKI that needs them.
+struct LeafKeys {
+    alg: String,
+    servers: Vec<(&'static str, KeyPair)>,
+    clients: Vec<(&'static str, KeyPair)>,
+}
+
+impl LeafKeys {
+    fn generate(alg: &str) -> Self {
+        let servers: Vec<(&'static str, KeyPair)> = PROV_SERVER_KINDS.iter().map(|k| (*k, gen_key(alg))).collect();
+        let clients: Vec<(&'static str, KeyPair)> = PROV_CLIENT_KINDS.iter().filter(|k| **k != "none").map(|k| (*k, gen_key(alg))).collect();
+        let me = Self { alg: alg.into(), servers, clients };
+        // the keys really are of the type asked for (raw public key: uncompressed point / 32 bytes / RSAPublicKey)
+        for (_, k) in me.servers.iter().chain(&me.clients) {
+            let n = k.public_key_raw().len();
+            let ok = match alg {
+                "p256" => n == 65 && k.algorithm() == &rcgen::PKCS_ECDSA_P256_SHA256,
+                "p384" => n == 97 && k.algorithm() == &rcgen::PKCS_ECDSA_P384_SHA384,
+                "ed25519" => n == 32 && k.algorithm() == &rcgen::PKCS_ED25519,
+                "rsa2048" => (260..=280).contains(&n),
+                _ => false,
+            };
+            assert!(ok, "provider-matrix: the generated {alg} key has a public key of {n} bytes / another algorithm");
+        }
+        me
+    }
+    fn public_key_bytes(&self) -> usize {
+        self.servers[0].1.public_key_raw().len()
+    }
+}
+
+impl Pki {
+    /// The PKI of one (server leaf key type, client leaf key type) cell of the provider-matrix pass: CAs of `PROV_CA_KEY`,
+    /// server certificates {trusted-CA leaf, other-CA leaf, self-signed} for "localhost" on the keys of `sk`, client
+    /// certificates {client-CA leaf, other-CA leaf} on the keys of `ck`. Its os-ca is never put into the OS trust store
+    /// (no case of this pass uses the system roots).
+    fn reduced(sk: &LeafKeys, ck: &LeafKeys) -> Self {
+        let dir = tempfile::Builder::new().prefix("verif-c17-prov-").tempdir().expect("tempdir");
+        let d = dir.path().to_str().expect("utf8 tempdir").to_string();
+        let ca_trusted = make_ca(&d, "ca-trusted", PROV_CA_KEY);
+        let ca_other = make_ca(&d, "ca-other", PROV_CA_KEY);
+        let ca_client = make_ca(&d, "ca-client", PROV_CA_KEY);
+        let ca_os = make_ca(&d, "ca-os", PROV_CA_KEY);
+        let mut servers = Vec::new();
+        for (kind, key) in &sk.servers {
+            let p = leaf_params("localhost", &format!("srv {kind} localhost {}", sk.alg), ExtendedKeyUsagePurpose::ServerAuth, false);
+            let issuer = match *kind {
+                "trusted-ca" => Some(&ca_trusted),
+                "other-ca" => Some(&ca_other),
+                _ => None,
+            };
+            servers.push((((*kind).to_string(), "localhost".to_string()), make_ident_with_key(&d, &format!("srv-{kind}-localhost"), key, &p, issuer)));
+        }
+        let mut clients = Vec::new();
+        for (kind, key) in &ck.clients {
+            let p = leaf_params("", &format!("client {kind} {}", ck.alg), ExtendedKeyUsagePurpose::ClientAuth, false);
+            let issuer = match *kind {
+                "client-ca" => Some(&ca_client),
+                "other-ca" => Some(&ca_other),
+                _ => None,
+            };
+            clients.push(((*kind).to_string(), make_ident_with_key(&d, &format!("cli-{kind}"), key, &p, issuer)));
+        }
+        Self { _dir: dir, dir_path: d, ca_trusted, ca_other, ca_client, ca_os, servers, clients }
+    }
+}
+
+/// All PKIs of one half (one provider) of the pass.
+struct ProvPkis {
+    pkis: Vec<((String, String), Pki)>,
+    public_key_bytes: serde_json::Map<String, Value>,
+}
+
+impl ProvPkis {
+    /// for every key type named by the cases
+    fn for_cases(cases: &[ProvCase]) -> Self {
+        let mut algs: Vec<String> = Vec::new();
+        let mut pairs: Vec<(String, String)> = Vec::new();
+        for c in cases {
+            for a in [&c.server_key, &c.client_key] {
+                if !algs.contains(a) {
+                    algs.push(a.clone());
+                }
+            }
+            let p = (c.server_key.clone(), c.client_key.clone());
+            if !pairs.contains(&p) {
+                pairs.push(p);
+            }
+        }
+        let keys: Vec<LeafKeys> = algs.iter().map(|a| LeafKeys::generate(a)).collect();
+        let of = |a: &str| keys.iter().find(|k| k.alg == a).expect("leaf keys");
+        let pkis = pairs.into_iter().map(|(s, c)| { let pki = Pki::reduced(of(&s), of(&c)); ((s, c), pki) }).collect();
+        let public_key_bytes = keys.iter().map(|k| (k.alg.clone(), json!(k.public_key_bytes()))).collect();
+        Self { pkis, public_key_bytes }
+    }
+    fn of(&self, c: &ProvCase) -> &Pki {
+        &self.pkis.iter().find(|((s, k), _)| *s == c.server_key && *k == c.client_key).expect("provider-matrix pki").1
+    }
+}
+
+#[derive(Default)]
+struct ProvStats {
+    handshakes: AtomicU64,
+    expected_successes: AtomicU64,
+    observed_successes: AtomicU64,
+    /// successful handshakes by the protocol version the server's connection reports
+    tls13_successes: AtomicU64,
+    other_version_successes: AtomicU64,
+}
+
+impl ProvStats {
+    fn to_json(&self) -> Value {
+        let ld = |a: &AtomicU64| a.load(Ordering::Relaxed);
+        json!({"handshakes": ld(&self.handshakes), "expected_successes": ld(&self.expected_successes), "observed_successes": ld(&self.observed_successes),
+               "tls13_successes": ld(&self.tls13_successes), "other_version_successes": ld(&self.other_version_successes)})
+    }
+}
+
+/// One point: build the server configuration through the subject, subject client against it, 1-byte echo both ways:
+/// what `run_matrix_case` does, plus the protocol version of an established connection.
+async fn run_prov_case(pki: &Pki, c: &ProvCase) -> (Obs, Option<rustls::ProtocolVersion>) {
+    let m = &c.m;
+    let r = catch(async {
+        let id = pki.server(&m.server_cert, &m.san);
+        let ca = m.server_client_ca.then_some(pki.ca_client.path.as_str());
+        let cfg = match build_server_config(&m.ctor, id, ca).await {
+            Ok((_, cfg)) => cfg,
+            Err(e) => return (Obs { server_config_err: Some(e), ..Obs::default() }, None),
+        };
+        let (o, streams) = subject_handshake(cfg, &m.req_name, pki.client(&m.client_cert), pki.roots_path(&m.roots), m.skip).await;
+        let ver = streams.as_ref().and_then(|(_, s)| s.get_ref().1.protocol_version());
+        (o, ver)
+    })
+    .await;
+    match r {
+        Ok(x) => x,
+        Err(p) => (Obs { panicked: Some(p), ..Obs::default() }, None),
+    }
+}
+
+/// Run and judge one point. The judge is `judge_matrix` (the reference predicate of the core matrix); what it raises is
+/// handed back as (key, description) so that the caller decides about the key prefix.
+fn exec_prov_case(rt: &tokio::runtime::Runtime, pkis: &ProvPkis, c: &ProvCase, stats: &ProvStats) -> (Obs, bool, Vec<(String, String)>) {
+    let pki = pkis.of(c);
+    let (o, ver) = rt.block_on(run_prov_case(pki, c));
+    let tmp = Mutex::new(Report::new("C17", "", "enum", "exploration"));
+    let exp = judge_matrix(pki, &c.m, &o, &Sink { rep: &tmp });
+    let found = tmp.into_inner().unwrap().violations.into_iter().map(|v| (v.key, format!("[{}] {}", c.label(), v.desc))).collect();
+    stats.handshakes.fetch_add(1, Ordering::Relaxed);
+    stats.expected_successes.fetch_add(u64::from(exp), Ordering::Relaxed);
+    if o.success() {
+        stats.observed_successes.fetch_add(1, Ordering::Relaxed);
+        if ver == Some(rustls::ProtocolVersion::TLSv1_3) {
+            stats.tls13_successes.fetch_add(1, Ordering::Relaxed);
+        } else {
+            stats.other_version_successes.fetch_add(1, Ordering::Relaxed);
+        }
+    }
+    (o, exp, found)
+}
+
+/// The child process (Chromium-like provider): everything it found goes into `extra.provider` of its report (the parent
+/// decides what counts); its own violation list stays empty.
+fn prov_child(args: &Args) -> Report {
+    let mut rep = Report::new("C17", &args.tier, "enum", "exploration");
+    quiet_panics();
+    if std::env::var(CHROMIUM_ENV).unwrap_or_default().is_empty() {
+        rep.machinery_error = Some(format!("provider-matrix child: {CHROMIUM_ENV} is not set in the child's environment"));
+        return rep;
+    }
+    let _os_store = match OsStore::install() {
+        Ok(s) => s,
+        Err(e) => {
+            rep.machinery_error = Some(e);
+            return rep;
+        }
+    };
+    // the way a user's process selects the provider
+    if tls::init_crypto_provider().is_none() {
+        rep.machinery_error = Some("provider-matrix child: tls::init_crypto_provider() could not install a crypto provider".into());
+        return rep;
+    }
+    let (chromium, facts) = provider_facts();
+    if !chromium {
+        rep.machinery_error = Some(format!("provider-matrix child: {CHROMIUM_ENV} is set but the provider installed by tls::init_crypto_provider() is not the Chromium-like one: {facts}"));
+        return rep;
+    }
+    let spec: Option<Value> = std::env::var(PROV_CASES_ENV).ok().and_then(|t| serde_json::from_str(&t).ok());
+    let keys = prov_keys("chromium");
+    let (cases, runs): (Vec<ProvCase>, usize) = match &spec {
+        Some(sp) => (sp["cases"].as_array().map(|a| a.iter().map(ProvCase::from_json).collect()).unwrap_or_default(), sp["runs"].as_u64().unwrap_or(1).max(1) as usize),
+        None => (prov_domain("chromium", &keys), 1),
+    };
+    if cases.is_empty() || cases.iter().any(|c| c.provider != "chromium") {
+        rep.machinery_error = Some("provider-matrix child: no case, or a case of another provider, was handed over".into());
+        return rep;
+    }
+    let t0 = std::time::Instant::now();
+    let pkis = ProvPkis::for_cases(&cases);
+    let keygen_s = t0.elapsed().as_secs_f64();
+    let stats = ProvStats::default();
+    let found_m = Mutex::new(Report::new("C17", &args.tier, "enum", "exploration"));
+    let observations: Mutex<Vec<(usize, Value)>> = Mutex::new(Vec::new());
+    let samples: Mutex<Vec<Value>> = Mutex::new(Vec::new());
+    let next = AtomicU64::new(0);
+    std::thread::scope(|s| {
+        for _ in 0..args.threads.clamp(1, 4).min(cases.len()) {
+            s.spawn(|| {
+                let rt = runtime();
+                loop {
+                    let k = next.fetch_add(1, Ordering::Relaxed) as usize;
+                    let Some(c) = cases.get(k) else { break };
+                    let mut per_run = Vec::new();
+                    for _ in 0..runs {
+                        let (o, exp, found) = exec_prov_case(&rt, &pkis, c, &stats);
+                        for (key, desc) in found {
+                            found_m.lock().unwrap().violation(key, desc, c.to_json());
+                        }
+                        // samples: a P-384 server reached with verification on / by a skip-verify client, a P-384 client admitted
+                        let m = &c.m;
+                        let pick = c.server_key == "p384" && c.client_key == "p384" && m.req_name == "localhost" && m.server_client_ca
+                            && matches!((m.server_cert.as_str(), m.skip, m.client_cert.as_str()), ("trusted-ca", false, "client-ca") | ("self-signed", true, "client-ca") | ("other-ca", false, "none"));
+                        if pick && per_run.is_empty() {
+                            samples.lock().unwrap().push(json!({"case": c.to_json(), "expected_success": exp, "observed": o.to_json()}));
+                        }
+                        per_run.push(json!({"verdict": o.verdict_fields(), "detail": o.to_json()}));
+                    }
+                    if spec.is_some() {
+                        observations.lock().unwrap().push((k, json!(per_run)));
+                    }
+                }
+            });
+        }
+    });
+    let found = found_m.into_inner().unwrap();
+    let mut observations = observations.into_inner().unwrap();
+    observations.sort_by_key(|(k, _)| *k);
+    rep.evaluations = stats.handshakes.load(Ordering::Relaxed);
+    rep.distinct_nontrivial = cases.iter().collect::<HashSet<_>>().len() as u64;
+    rep.rule = "child process of the C17 driver: provider-matrix pass under the Chromium-like crypto provider; findings are in extra.provider".into();
+    rep.extra.insert(
+        "provider".into(),
+        json!({
+            "status": "ran",
+            "provider": facts,
+            "key_types": keys,
+            "leaf_public_key_bytes": pkis.public_key_bytes,
+            "cases": cases.len(),
+            "runs": runs,
+            "stats": stats.to_json(),
+            "keygen_s": keygen_s,
+            "violations": found.violations.iter().map(|v| json!({"key": v.key, "desc": v.desc, "replay": v.replay, "count": v.count})).collect::<Vec<_>>(),
+            "observations": observations.into_iter().map(|(_, v)| v).collect::<Vec<_>>(),
+            "samples": samples.into_inner().unwrap(),
+        }),
+    );
+    rep
+}
+
+/// Run the child (whole sub-matrix, or `spec` = `{"cases": [...], "runs": N}`) and read the report it printed.
+/// Ok: the `extra.provider` object of the child's report. Err: the child did not produce a result (a machinery problem).
+fn prov_spawn(args: &Args, spec: Option<&Value>) -> Result<Value, String> {
+    let exe = std::env::current_exe().map_err(|e| format!("cannot find the path of this binary to run it again: {e}"))?;
+    let tmp = tempfile::Builder::new().prefix("verif-c17-child-").tempdir().map_err(|e| format!("tempdir for the child's output: {e}"))?;
+    let outp = tmp.path().join("child.stdout.json");
+    let errp = tmp.path().join("child.stderr");
+    let outf = std::fs::File::create(&outp).map_err(|e| format!("create {}: {e}", outp.display()))?;
+    let errf = std::fs::File::create(&errp).map_or_else(|_| std::process::Stdio::null(), std::process::Stdio::from);
+    let mut cmd = std::process::Command::new(exe);
+    // no --out: the report is printed on standard output
+    cmd.arg("C17").arg("--tier").arg(&args.tier).arg("--threads").arg(args.threads.to_string());
+    cmd.env(PROV_CHILD_ENV, "1").env(CHROMIUM_ENV, "1").env_remove(PROV_CASES_ENV);
+    if let Some(sp) = spec {
+        cmd.env(PROV_CASES_ENV, sp.to_string());
+    }
+    cmd.stdin(std::process::Stdio::null()).stdout(std::process::Stdio::from(outf)).stderr(errf);
+    let mut child = cmd.spawn().map_err(|e| format!("cannot start a child process: {e}"))?;
+    let started = std::time::Instant::now();
+    let status = loop {
+        match child.try_wait() {
+            Ok(Some(st)) => break st,
+            Ok(None) if started.elapsed() > PROV_CHILD_LIMIT => {
+                let _ = child.kill();
+                let _ = child.wait();
+                return Err(format!("the child process did not finish within {PROV_CHILD_LIMIT:?}"));
+            }
+            Ok(None) => std::thread::sleep(Duration::from_millis(20)),
+            Err(e) => return Err(format!("waiting for the child process: {e}")),
+        }
+    };
+    let text = std::fs::read_to_string(&outp).unwrap_or_default();
+    let tail = std::fs::read_to_string(&errp).unwrap_or_default();
+    let tail: String = tail.chars().rev().take(600).collect::<String>().chars().rev().collect();
+    // the report is the JSON object that standard output ends with (anything a library printed before it is skipped)
+    let start = text.find("{\n").or_else(|| text.find('{'));
+    let Some(v) = start.and_then(|i| serde_json::from_str::<Value>(&text[i..]).ok()) else {
+        return Err(format!("the child process ended with {status} without a readable result on its standard output ({} bytes); stderr: {tail}", text.len()));
+    };
+    if let Some(m) = v["machinery_error"].as_str() {
+        return Err(format!("child process: {m}"));
+    }
+    let d = &v["extra"]["provider"];
+    if d["status"].as_str() != Some("ran") || d["provider"]["chromium_like"].as_bool() != Some(true) {
+        return Err(format!("the child process ({status}) wrote a result without the provider-matrix findings: {}", text.chars().take(300).collect::<String>()));
+    }
+    Ok(d.clone())
+}
+
+/// Violations of a child's result, as (key WITHOUT prefix, description, replay, count).
+fn prov_child_violations(d: &Value) -> Result<Vec<(String, String, Value, u64)>, String> {
+    let mut out = Vec::new();
+    for v in d["violations"].as_array().ok_or("provider-matrix child: no violation list")? {
+        let key = v["key"].as_str().ok_or("provider-matrix child: a violation without key")?;
+        out.push((key.to_string(), v["desc"].as_str().unwrap_or("").to_string(), v["replay"].clone(), v["count"].as_u64().unwrap_or(1)));
+    }
+    Ok(out)
+}
+
+fn replay_prov(args: &Args, v: &Value, mut rep: Report) -> Report {
+    let case = ProvCase::from_json(v);
+    rep.distinct_nontrivial = 1;
+    rep.extra.insert("replayed".into(), v.clone());
+    if case.provider == "chromium" {
+        // in a child process under the Chromium-like provider, made the same way as in the full run
+        match prov_spawn(args, Some(&json!({"cases": [case.to_json()], "runs": 2}))).and_then(|d| prov_child_violations(&d).map(|vs| (d, vs))) {
+            Err(e) => rep.machinery_error = Some(format!("provider-matrix: {e}")),
+            Ok((d, vs)) => {
+                for (key, desc, replay, n) in vs {
+                    // both runs raise the same violations; halve the counts
+                    rep.violation_n(format!("chromium.{key}"), desc, replay, n.div_ceil(2));
+                }
+                rep.evaluations = d["stats"]["handshakes"].as_u64().unwrap_or(0);
+                let obs = d["observations"][0].as_array().cloned().unwrap_or_default();
+                if obs.len() != 2 {
+                    rep.machinery_error = Some(format!("provider-matrix: the child process handed back {} observations instead of 2", obs.len()));
+                } else if obs[0]["verdict"] != obs[1]["verdict"] {
+                    rep.machinery_error = Some(format!("replay is not deterministic: {} vs {}", obs[0]["verdict"], obs[1]["verdict"]));
+                }
+                rep.extra.insert("observations".into(), json!(obs));
+                rep.extra.insert("crypto_provider".into(), d["provider"].clone());
+                rep.extra.insert("provider_matrix_stats".into(), d["stats"].clone());
+            }
+        }
+        rep.rule = "replay of one recorded point of the provider-matrix pass, executed twice with fresh key material by a child process under the Chromium-like crypto provider (PENGUIN_TLS_CHROMIUM_LIKE=1, installed by tls::init_crypto_provider()); observations must agree".into();
+        return rep;
+    }
+    let (chromium, facts) = provider_facts();
+    if chromium {
+        rep.machinery_error = Some(format!("provider-matrix: this process runs under the Chromium-like provider, the default-provider point cannot be replayed in it: {facts}"));
+        return rep;
+    }
+    let rt = runtime();
+    let stats = ProvStats::default();
+    let mut observations = Vec::new();
+    let cases = [case];
+    for _ in 0..2 {
+        let pkis = ProvPkis::for_cases(&cases);
+        let (o, _, found) = exec_prov_case(&rt, &pkis, &cases[0], &stats);
+        if observations.is_empty() {
+            for (key, desc) in found {
+                rep.violation(key, desc, cases[0].to_json());
+            }
+        }
+        observations.push(json!({"verdict": o.verdict_fields(), "detail": o.to_json()}));
+    }
+    rep.evaluations = stats.handshakes.load(Ordering::Relaxed);
+    if observations[0]["verdict"] != observations[1]["verdict"] {
+        rep.machinery_error = Some(format!("replay is not deterministic: {} vs {}", observations[0]["verdict"], observations[1]["verdict"]));
+    }
+    rep.rule = "replay of one recorded point of the provider-matrix pass under the default crypto provider, executed twice with fresh key material; observations must agree".into();
+    rep.extra.insert("observations".into(), json!(observations));
+    rep.extra.insert("crypto_provider".into(), facts);
+    rep.extra.insert("provider_matrix_stats".into(), stats.to_json());
+    rep
+}
+
+// ---------------------------------------------------------------------------------------
 // Driver
 // ---------------------------------------------------------------------------------------
 
@@ -2712,6 +3235,9 @@ fn quiet_panics() {
 }
 
 fn replay(args: &Args, v: &Value, mut rep: Report, os_store: &OsStore) -> Report {
+    if v["kind"].as_str() == Some("provider-matrix") {
+        return replay_prov(args, v, rep);
+    }
     let alg = v["alg"].as_str().expect("replay: alg").to_string();
     let pki = Pki::new(&alg, os_store);
     let rep_m = Mutex::new(Report::new("C17", &args.tier, "enum", "exploration"));
@@ -2830,8 +3356,17 @@ fn replay(args: &Args, v: &Value, mut rep: Report, os_store: &OsStore) -> Report
 }
 
 pub fn run(args: &Args) -> Report {
+    if std::env::var_os(PROV_CHILD_ENV).is_some() {
+        return prov_child(args);
+    }
     let mut rep = Report::new("C17", &args.tier, "enum", "exploration");
     quiet_panics();
+    // The crypto provider is a controlled dimension: this process is the default-provider half (whatever the caller's
+    // environment says), the Chromium-like half is a child process (see the provider-matrix pass).
+    // SAFETY: as in `OsStore::install`: the very start of the driver, no thread of ours exists that reads the environment.
+    unsafe {
+        std::env::remove_var(CHROMIUM_ENV);
+    }
     // The OS trust store of this process: before anything else (no TLS configuration exists yet, no worker thread runs).
     let os_store = match OsStore::install() {
         Ok(s) => s,
@@ -2849,13 +3384,26 @@ pub fn run(args: &Args) -> Report {
     if let Some(v) = args.replay_json() {
         return replay(args, &v, rep, &os_store);
     }
+    let (parent_is_chromium, parent_provider) = provider_facts();
+    if parent_is_chromium {
+        rep.machinery_error = Some(format!("the provider installed in this process is the Chromium-like one although {CHROMIUM_ENV} was removed: the default-provider half cannot be run: {parent_provider}"));
+        return rep;
+    }
     let thorough = args.thorough();
     let algs: Vec<&str> = if thorough { ALGS.to_vec() } else { vec!["p256"] };
-    rep.rule = "complete product: key algorithm x server certificate {trusted-CA leaf, other-CA leaf, self-signed, expired trusted-CA leaf} x (certificate name, requested name) x skip-verify x roots given to the client {trusted CA, other CA, none/system} x client certificate {none, client-CA, other-CA, self-signed} x server client-CA {none, set} x server-config constructor; plus harness-client probes (TLS1.2/1.3) of every server configuration, all reload histories A->B (identities, client-CA before/after, reload method), a client-CA file without a usable certificate {empty, key only, not PEM, truncated PEM} at start-up (every constructor) and at reload (every method): refusing is fine, admitting a client without a certificate under a CA is not; the OS trust store of the process is SSL_CERT_FILE = {os-ca} and the os-trust-store pass is the complete product, client side (tls_connect and make_client_config, skip-verify off, name matches): CA file {empty, key only, the trusted CA in DER, truncated PEM} x server certificate issued by {os-ca, trusted CA} x client certificate {none, under client CA} must NOT connect, a usable file of {trusted CA, other CA} must not reach a server certificate under os-ca, no CA file must not reach one under the trusted CA, controls: no CA file reaches a server certificate under os-ca (must hold, else MACHINERY) and os-ca given as a file does too; server side (harness client presenting a certificate issued by os-ca, TLS 1.2 and 1.3): client-CA file {empty, key only, the client CA in DER, truncated PEM} at start-up (every constructor) and at reload (every method): refused, or the os-ca client is rejected (after a refused reload the old configuration rejects it too), a usable client-CA file of another CA rejects it, control: os-ca as the client-CA file admits it; and the real client main loop over loopback TCP for every (--hostname, --tls-server-name, certificate name, skip-verify) combination; reload histories through SIGUSR1 on a running server_main (loopback TCP, one after the other): starting from identity A, each step rewrites the live --tls-cert/--tls-key files as one of {good-B, good-A, bad-key = key file truncated, bad-cert = certificate file not PEM} and raises SIGUSR1, then a harness client that accepts any certificate opens a new connection: it must be shown the last well-formed identity written so far (a new identity within 3 s; an unchanged one is looked at once after 300 ms), the connection made before the first signal must still get an HTTP response at the end, and a TLS handshake that only STARTS at the end, on a TCP connection accepted before the first signal and silent since, must be shown the identity then in force; quick tier: every history of length 1..=2 and, of length 3, those whose first step is bad-key/bad-cert and whose last step is good-A/good-B, plus [good-B, bad-key, good-A]; thorough tier: every history of length 1..=4, and every history of length 1..=2 again with a client CA configured and for every further key algorithm; returning-client histories: ONE rustls ClientConfig (session store kept: tickets / session ids) per history, client in {harness TLS1.3, harness TLS1.2 (both record the certificate presented), the subject's make_client_config}, (client certificate, client CA at start) in {(none, none), (under ca1, none), (under ca1, ca1)}, first visit to identity A (full handshake, round trip, clean close), then every sequence of steps over {again = connect again without reload, X/ca = reload to identity X in {A,B} with client CA ca in {none, ca1, ca2} and connect again} of length 1..=2 (thorough: 1..=3 for the first key algorithm) for each of the three library reload methods (server side accepts like server_main: LazyConfigAcceptor, identity taken after the ClientHello), and through SIGUSR1 on a running server_main (client-CA file rewritten; steps {again, A, B} without client CA, {again, A/ca1, B/ca1, A/ca2, B/ca2} with one; quick: harness TLS1.3 client, length 1; thorough: length 1..=2, other clients length 1; a fresh non-resuming client must observe the new state within 3 s before the returning one is judged): every connection must carry the certificate of the identity in force (peer_certificates of that connection) and is served iff no client CA is in force or the client's certificate is issued by the one in force; control: a second visit without any reload must be a resumption, else MACHINERY; a case is distinct when its configuration tuple is distinct".into();
+    rep.rule = "complete product: key algorithm x server certificate {trusted-CA leaf, other-CA leaf, self-signed, expired trusted-CA leaf} x (certificate name, requested name) x skip-verify x roots given to the client {trusted CA, other CA, none/system} x client certificate {none, client-CA, other-CA, self-signed} x server client-CA {none, set} x server-config constructor; plus harness-client probes (TLS1.2/1.3) of every server configuration, all reload histories A->B (identities, client-CA before/after, reload method), a client-CA file without a usable certificate {empty, key only, not PEM, truncated PEM} at start-up (every constructor) and at reload (every method): refusing is fine, admitting a client without a certificate under a CA is not; the OS trust store of the process is SSL_CERT_FILE = {os-ca} and the os-trust-store pass is the complete product, client side (tls_connect and make_client_config, skip-verify off, name matches): CA file {empty, key only, the trusted CA in DER, truncated PEM} x server certificate issued by {os-ca, trusted CA} x client certificate {none, under client CA} must NOT connect, a usable file of {trusted CA, other CA} must not reach a server certificate under os-ca, no CA file must not reach one under the trusted CA, controls: no CA file reaches a server certificate under os-ca (must hold, else MACHINERY) and os-ca given as a file does too; server side (harness client presenting a certificate issued by os-ca, TLS 1.2 and 1.3): client-CA file {empty, key only, the client CA in DER, truncated PEM} at start-up (every constructor) and at reload (every method): refused, or the os-ca client is rejected (after a refused reload the old configuration rejects it too), a usable client-CA file of another CA rejects it, control: os-ca as the client-CA file admits it; and the real client main loop over loopback TCP for every (--hostname, --tls-server-name, certificate name, skip-verify) combination; reload histories through SIGUSR1 on a running server_main (loopback TCP, one after the other): starting from identity A, each step rewrites the live --tls-cert/--tls-key files as one of {good-B, good-A, bad-key = key file truncated, bad-cert = certificate file not PEM} and raises SIGUSR1, then a harness client that accepts any certificate opens a new connection: it must be shown the last well-formed identity written so far (a new identity within 3 s; an unchanged one is looked at once after 300 ms), the connection made before the first signal must still get an HTTP response at the end, and a TLS handshake that only STARTS at the end, on a TCP connection accepted before the first signal and silent since, must be shown the identity then in force; quick tier: every history of length 1..=2 and, of length 3, those whose first step is bad-key/bad-cert and whose last step is good-A/good-B, plus [good-B, bad-key, good-A]; thorough tier: every history of length 1..=4, and every history of length 1..=2 again with a client CA configured and for every further key algorithm; returning-client histories: ONE rustls ClientConfig (session store kept: tickets / session ids) per history, client in {harness TLS1.3, harness TLS1.2 (both record the certificate presented), the subject's make_client_config}, (client certificate, client CA at start) in {(none, none), (under ca1, none), (under ca1, ca1)}, first visit to identity A (full handshake, round trip, clean close), then every sequence of steps over {again = connect again without reload, X/ca = reload to identity X in {A,B} with client CA ca in {none, ca1, ca2} and connect again} of length 1..=2 (thorough: 1..=3 for the first key algorithm) for each of the three library reload methods (server side accepts like server_main: LazyConfigAcceptor, identity taken after the ClientHello), and through SIGUSR1 on a running server_main (client-CA file rewritten; steps {again, A, B} without client CA, {again, A/ca1, B/ca1, A/ca2, B/ca2} with one; quick: harness TLS1.3 client, length 1; thorough: length 1..=2, other clients length 1; a fresh non-resuming client must observe the new state within 3 s before the returning one is judged): every connection must carry the certificate of the identity in force (peer_certificates of that connection) and is served iff no client CA is in force or the client's certificate is issued by the one in force; control: a second visit without any reload must be a resumption, else MACHINERY; crypto provider x key type of the peer being authenticated (provider-matrix pass): for each crypto provider {default aws-lc-rs: in this process; Chromium-like: a child process of this binary with PENGUIN_TLS_CHROMIUM_LIKE=1, provider installed by tls::init_crypto_provider() and recognised by its cipher-suite list, else MACHINERY} x server leaf key type x client leaf key type (default: {P-256, P-384, Ed25519, RSA-2048}^2; Chromium-like: {P-256, P-384, RSA-2048}^2, Ed25519 is not in that provider's tables; CAs P-256) the complete product server certificate {trusted-CA leaf, other-CA leaf, self-signed} x requested name {matches, differs} x skip-verify x client certificate {none, client-CA, other-CA} x server client-CA {none, set} (roots given to the client: the trusted CA; make_tls_identity), handshake plus 1-byte echo both ways, judged by the reference predicate of the core matrix; what the child finds is reported under the key prefix `chromium.`; a case is distinct when its configuration tuple is distinct".into();
 
     let t0 = std::time::Instant::now();
     let pkis: Vec<(String, Pki)> = algs.iter().map(|a| ((*a).to_string(), Pki::new(a, &os_store))).collect();
     let pki_of = |alg: &str| &pkis.iter().find(|(a, _)| a == alg).expect("pki").1;
+    // provider-matrix pass, default-provider half (the Chromium-like half is made by the child)
+    let prov_default = prov_domain("default", &prov_keys("default"));
+    let prov_chromium_keys = prov_keys("chromium");
+    let prov_chromium_cases = prov_domain("chromium", &prov_chromium_keys).len();
+    let prov_pkis = ProvPkis::for_cases(&prov_default);
+    let prov_stats = ProvStats::default();
+    let prov_child_result: Mutex<Option<Result<Value, String>>> = Mutex::new(None);
+    let prov_child_wall: Mutex<f64> = Mutex::new(0.0);
     let keygen_s = t0.elapsed().as_secs_f64();
 
     let matrix = matrix_domain(&algs, thorough);
@@ -2877,7 +3425,7 @@ pub fn run(args: &Args) -> Report {
     let sig_machinery: Mutex<Option<String>> = Mutex::new(None);
     let sig_wall: Mutex<f64> = Mutex::new(0.0);
     let ret_sig_wall: Mutex<f64> = Mutex::new(0.0);
-    let distinct = rets.iter().collect::<HashSet<_>>().len() + sigs.iter().collect::<HashSet<_>>().len() + badcas.len() + ostrust.iter().collect::<HashSet<_>>().len() + matrix.iter().collect::<HashSet<_>>().len() + probes.iter().collect::<HashSet<_>>().len() + reloads.iter().collect::<HashSet<_>>().len() + names.iter().collect::<HashSet<_>>().len();
+    let distinct = rets.iter().collect::<HashSet<_>>().len() + sigs.iter().collect::<HashSet<_>>().len() + badcas.len() + ostrust.iter().collect::<HashSet<_>>().len() + matrix.iter().collect::<HashSet<_>>().len() + probes.iter().collect::<HashSet<_>>().len() + reloads.iter().collect::<HashSet<_>>().len() + names.iter().collect::<HashSet<_>>().len() + prov_default.iter().collect::<HashSet<_>>().len() + prov_chromium_cases;
     let n_name_ok = AtomicU64::new(0);
     let n_name_refused = AtomicU64::new(0);
     let n_badca_refused_start = AtomicU64::new(0);
@@ -2905,6 +3453,8 @@ pub fn run(args: &Args) -> Report {
         Q(usize),
         /// all signal-reload histories, one after the other (SIGUSR1 is process-wide)
         S,
+        /// one point of the provider-matrix pass under the default provider
+        K(usize),
     }
     let mut jobs: Vec<Job> = Vec::new();
     // first, so that it overlaps with everything else (it mostly waits)
@@ -2916,9 +3466,17 @@ pub fn run(args: &Args) -> Report {
     jobs.extend((0..badcas.len()).map(Job::B));
     jobs.extend((0..ostrust.len()).map(Job::O));
     jobs.extend(ret_lib.iter().copied().map(Job::Q));
+    jobs.extend((0..prov_default.len()).map(Job::K));
     let next = AtomicU64::new(0);
 
     std::thread::scope(|s| {
+        // the Chromium-like half of the provider-matrix pass: a child process of its own, next to the pool
+        s.spawn(|| {
+            let t = std::time::Instant::now();
+            let r = prov_spawn(args, None);
+            *prov_child_wall.lock().unwrap() = t.elapsed().as_secs_f64();
+            *prov_child_result.lock().unwrap() = Some(r);
+        });
         for _ in 0..threads {
             s.spawn(|| {
                 let rt = runtime();
@@ -3051,6 +3609,23 @@ pub fn run(args: &Args) -> Report {
                             }
                             *ret_sig_wall.lock().unwrap() = t.elapsed().as_secs_f64();
                         }
+                        Job::K(k) => {
+                            let c = &prov_default[k];
+                            let (o, exp, found) = exec_prov_case(&rt, &prov_pkis, c, &prov_stats);
+                            counters.evals.fetch_add(1, Ordering::Relaxed);
+                            for (key, desc) in found {
+                                sink.viol(key, desc, c.to_json());
+                            }
+                            if o.success() {
+                                n_success.fetch_add(1, Ordering::Relaxed);
+                            } else {
+                                n_refused.fetch_add(1, Ordering::Relaxed);
+                            }
+                            let m = &c.m;
+                            if c.server_key == "p384" && c.client_key == "p384" && m.server_cert == "trusted-ca" && m.req_name == "localhost" && !m.skip && m.client_cert == "client-ca" && m.server_client_ca {
+                                samples.lock().unwrap().push(json!({"case": c.to_json(), "expected_success": exp, "observed": o.to_json()}));
+                            }
+                        }
                         Job::R(k) => {
                             let c = &reloads[k];
                             let pki = pki_of(&c.alg);
@@ -3073,6 +3648,36 @@ pub fn run(args: &Args) -> Report {
     rep.evaluations = counters.evals.load(Ordering::Relaxed);
     rep.distinct_nontrivial = distinct as u64;
     rep.exhaustive = true;
+    // ---- provider-matrix pass: what the child (Chromium-like provider) found, merged under the prefix `chromium.`
+    let mut prov_machinery: Option<String> = None;
+    match prov_child_result.into_inner().unwrap().unwrap_or_else(|| Err("the child process was never started".into())).and_then(|d| prov_child_violations(&d).map(|vs| (d, vs))) {
+        Err(e) => prov_machinery = Some(format!("provider-matrix (Chromium-like half): {e}")),
+        Ok((d, vs)) => {
+            for (key, desc, replay, n) in vs {
+                rep.violation_n(format!("chromium.{key}"), desc, replay, n);
+            }
+            let st = &d["stats"];
+            let g = |k: &str| st[k].as_u64().unwrap_or(0);
+            rep.evaluations += g("handshakes");
+            if g("handshakes") != prov_chromium_cases as u64 {
+                prov_machinery = Some(format!("provider-matrix (Chromium-like half): the child process executed {} of {prov_chromium_cases} cases", g("handshakes")));
+            } else if g("expected_successes") == 0 || g("expected_successes") == g("handshakes") {
+                prov_machinery = Some("provider-matrix (Chromium-like half): degenerate domain: it lacks expected successes or expected refusals".into());
+            } else if d["violations"].as_array().is_some_and(Vec::is_empty) && (g("observed_successes") != g("expected_successes") || g("tls13_successes") == 0) {
+                prov_machinery = Some(format!("provider-matrix (Chromium-like half): no violation although the counts disagree, or no TLS 1.3 handshake was seen: {st}"));
+            }
+            rep.extra.insert("provider_matrix_chromium".into(), json!({"provider": d["provider"], "stats": st, "key_types": d["key_types"], "leaf_public_key_bytes": d["leaf_public_key_bytes"], "keygen_s": d["keygen_s"], "wall_s": *prov_child_wall.lock().unwrap()}));
+            rep.extra.insert("provider_matrix_samples".into(), d["samples"].clone());
+        }
+    }
+    if prov_stats.handshakes.load(Ordering::Relaxed) != prov_default.len() as u64 {
+        prov_machinery = Some(format!("provider-matrix (default provider): {} of {} cases were executed", prov_stats.handshakes.load(Ordering::Relaxed), prov_default.len()));
+    }
+    rep.extra.insert("provider_matrix_default".into(), json!({"provider": parent_provider, "stats": prov_stats.to_json(), "key_types": prov_keys("default"), "leaf_public_key_bytes": prov_pkis.public_key_bytes}));
+    rep.bounds.insert("crypto_providers".into(), json!(PROVIDERS));
+    rep.bounds.insert("provider_matrix_leaf_key_types".into(), json!({"default": prov_keys("default"), "chromium": prov_chromium_keys, "ca_keys": PROV_CA_KEY, "left_out_under_chromium": "ed25519 (no ED25519 entry in that provider's signature_algorithms table: refused by design on the unchanged tree)"}));
+    rep.bounds.insert("provider_matrix_cases".into(), json!({"default (in this process)": prov_default.len(), "chromium (child process)": prov_chromium_cases, "per (server leaf key, client leaf key)": PROV_SERVER_KINDS.len() * PROV_NAMES.len() * 2 * PROV_CLIENT_KINDS.len() * 2}));
+    rep.bounds.insert("provider_matrix_dimensions".into(), json!({"server_cert_kinds": PROV_SERVER_KINDS, "name_pairs(san,requested)": PROV_NAMES, "skip_verify": [false, true], "client_cert_kinds": PROV_CLIENT_KINDS, "server_client_ca": [false, true], "client_roots": PROV_ROOTS, "constructor": PROV_CTOR}));
     rep.bounds.insert("key_algorithms".into(), json!(algs));
     rep.bounds.insert("matrix_cases".into(), json!(matrix.len()));
     rep.bounds.insert("probe_cases".into(), json!(probes.len()));
@@ -3193,6 +3798,9 @@ pub fn run(args: &Args) -> Report {
         rep.machinery_error = Some(format!("returning-client: {} of {} histories were executed ({} of {} through SIGUSR1)", ld(&ret_stats.histories), rets.len(), ld(&ret_stats.sig_histories), ret_sig.len()));
     } else if rep.violations.is_empty() && ret_stats.resumed_without_reload.iter().any(|n| ld(n) == 0) {
         rep.machinery_error = Some(format!("returning-client: no resumed handshake without a reload in between was observed for at least one client kind ({:?}): vacuous", rep.extra.get("resumed_handshakes_without_reload_by_client")));
+    }
+    if let Some(m) = prov_machinery {
+        rep.machinery_error = Some(m);
     }
     if let Some(m) = sig_machinery.into_inner().unwrap() {
         rep.machinery_error = Some(m);
